@@ -246,6 +246,78 @@ example : allowed { components := [{ name := lit "main", mirrorSource := true, a
     (lit "main/debian-installer/binary-amd64/Packages.xz") = false :=
   C10_unconfigured_component _ (lit "main/debian-installer") (lit "binary-amd64") (lit "Packages.xz") (by decide) (by decide) (by decide)
 
+/-- **C10 (binary indices when only sources are configured; unbounded).** If no component of the codename has an architecture,
+    nothing whose path contains `/binary-`, `/cnf/`, `/dep11/` or `/i18n/` is selected - whatever the names. -/
+theorem C10_sources_only (c : CodenameCfg) (s : S) (hb : c.shouldMirrorBinaries = false)
+    (hs : isInfix (lit "/binary-") s = true ∨ isInfix (lit "/cnf/") s = true ∨ isInfix (lit "/dep11/") s = true ∨
+      isInfix (lit "/i18n/") s = true) : allowed c s = false := by
+  unfold allowed
+  simp only []
+  split
+  · rfl
+  · split
+    · rfl
+    · rename_i _ h2
+      exfalso
+      apply h2
+      simp only [hb, Bool.not_false, Bool.true_and, List.any_cons, List.any_nil, Bool.or_false, Bool.or_eq_true]
+      rcases hs with h | h | h | h <;> simp [h]
+
+/-- **C10 (source indices when only binaries are configured; unbounded).** If no component mirrors sources, nothing below a
+    `/source/` directory and no `Contents-source*` file is selected. -/
+theorem C10_binaries_only (c : CodenameCfg) (s : S) (hsrc : c.shouldMirrorSource = false)
+    (hs : isInfix (lit "/source/") s = true ∨ startsWith (baseName s) (lit "Contents-source") = true) : allowed c s = false := by
+  unfold allowed
+  simp only []
+  split
+  · rfl
+  · rename_i h1
+    exfalso
+    apply h1
+    simp only [hsrc, Bool.not_false, Bool.true_and, Bool.or_eq_true]
+    exact hs
+
+/-- **C10 (binary index of an unconfigured architecture; unbounded, under the guard the substring heuristics force).** For
+    `<component>/<dir>/<file>` with a `/binary-` part and no `source` in it: if the component's record (the first one of that
+    name) lists no architecture that occurs as a substring of the path, and `-all` does not occur either, the entry is not
+    selected.  (Without the guard the statement is false of the code: an architecture that is a substring of another one's
+    name is matched - the reason why the exact clause is decided over a finite universe of real names, `C10_mustnot`.) -/
+theorem C10_unconfigured_arch (c : CodenameCfg) (k : Component) (d f : S) (hd : '/' ∉ d) (hf : '/' ∉ f)
+    (hk : c.components.find? (fun x => decide (x.name = k.name)) = some k)
+    (hbin : isInfix (lit "/binary-") (k.name ++ '/' :: d ++ '/' :: f) = true)
+    (hnosrc : isInfix (lit "source") (k.name ++ '/' :: d ++ '/' :: f) = false)
+    (hnone : ∀ a ∈ k.arches ++ [lit "-all"], isInfix a (k.name ++ '/' :: d ++ '/' :: f) = false) :
+    allowed c (k.name ++ '/' :: d ++ '/' :: f) = false := by
+  have hcount : 2 ≤ count '/' (k.name ++ '/' :: d ++ '/' :: f) := by
+    unfold count
+    simp only [List.count_append, List.count_cons_self]
+    omega
+  have hany : (k.arches ++ [lit "-all"]).any (fun a => isInfix a (k.name ++ '/' :: d ++ '/' :: f)) = false := by
+    rw [List.any_eq_false]
+    intro a ha
+    have := hnone a ha
+    simpa using this
+  unfold allowed
+  simp only []
+  split
+  · rfl
+  · split
+    · rfl
+    · have hsplit : min (count '/' (k.name ++ '/' :: d ++ '/' :: f)) 2 = 2 := by omega
+      simp only [hsplit, rsplitHead_two k.name d f hd hf, hk, hbin, hnosrc, hany]
+      simp
+
+example : allowed { components := [{ name := lit "main", mirrorSource := false, arches := [lit "amd64"] }] }
+    (lit "main/binary-i386/Packages.xz") = false :=
+  C10_unconfigured_arch _ { name := lit "main", mirrorSource := false, arches := [lit "amd64"] } (lit "binary-i386") (lit "Packages.xz")
+    (by decide) (by decide) (by decide) (by decide) (by decide) (by decide)
+
+example : allowed { components := [{ name := lit "main", mirrorSource := true, arches := [] }] } (lit "main/binary-amd64/Packages") = false :=
+  C10_sources_only _ _ (by decide) (Or.inl (by decide))
+
+example : allowed { components := [{ name := lit "main", mirrorSource := false, arches := [lit "amd64"] }] } (lit "main/source/Sources.xz") = false :=
+  C10_binaries_only _ _ (by decide) (Or.inl (by decide))
+
 /-- **C10 (non-positive sizes, release files inside Release, unsafe names are never selected)** — for every
     release file, policy, configuration and prior groups (unbounded). -/
 theorem C10_filtered (f : RelFile) (policy : Cfg.ByHashOpt) (sel : SelCfg) (ign : List Path) (a : Algo) (g : Groups)
